@@ -119,6 +119,7 @@ static bool gen_c09(uint64_t seed, const std::string &tier, uint64_t i, Plan &p)
     if (r.chance(0.2)) for (auto &hp : hosts.o) if (hp.second.gets("kind") == "accept" && hp.second.geti("delay", 0) == 0) hp.second.set("immediate", true);
     // the address lookup of one MX host fails, for the moment or for good
     if (r.chance(0.2)) { Json fl = Json::obj(); fl.set(mxl.a[r.below(mxl.a.size())].a[1].str(), r.chance(0.7) ? "soft" : "hard"); zone.set("fail", fl); lab_self = lab_self; }
+    if (i % 12 == 4) zone.set("mixed", (long long)(1 + (i / 12) % 3));   // every other MX-set plan: records of other types (CNAME, TXT, a signature) among the MX and A records of the answers; decided by the plan index alone, no draw
     mx.set("r.example", mxl); zone.set("mx", mx).set("a", a); p.knobs.set("zone", zone).set("hosts", hosts);
     lab = "mx set of " + std::to_string(n) + (any_accept ? "" : " (none accepts)") + (lab_self ? " +self" : "");
     // the hosts were all down a few minutes ago (one or two earlier attempts timed out) and are up now: a listed host is skipped for a while, a success clears its record
